@@ -211,6 +211,9 @@ theorem Ext.consOK {w w' : World Val Err Op} (e : Ext w w') {c : Consumer Val} (
   | trigY c t yr =>
     obtain ⟨a1, ce, a2⟩ := h
     exact ⟨e.argClean a1, ce, e.sArgExpr a2⟩
+  | sync k n deps =>
+    obtain ⟨nd, a1, a2, a3⟩ := h
+    exact ⟨nd, e.statNode a1, a2, a3⟩
 
 theorem Ext.cohAt {S : Sem Val Err Op} {w w' : World Val Err Op} (e : Ext w w') {nd : Node Val Err Op}
     (hinp : ∀ q ∈ supp nd.expr, q ∈ w.inputs) (hcell : nd.cell < w.cells.length)
